@@ -186,6 +186,9 @@ func SafeImpl(p *Prop, line string) (res string) {
 	}
 }
 
+// Sanitize makes a string a single space-free token (truncated).
+func Sanitize(s string) string { return sanitize(s) }
+
 func sanitize(s string) string {
 	s = strings.Map(func(r rune) rune {
 		if r == ' ' || r == '\n' || r == '\t' || r == '\r' {
